@@ -16,7 +16,8 @@ THEOREMS = ["errors_located", "errors_true", "siblings_disjoint_list", "siblings
             "validateFieldsP_located", "validateScalar_here", "validateScalar_true", "validateP_true", "minByLen_mem",
             "errors_true_sub", "sub_accepts_of_plain", "errors_true_sub_example",
             "format_shown", "format_names_path",
-            "validateScalar_eq_extracted", "listPrelude_eq_extracted", "dictPrelude_eq_extracted", "anyPrelude_eq_extracted", "validateP_list_prelude", "validateP_dict_prelude"]
+            "validateScalar_eq_extracted", "listPrelude_eq_extracted", "dictPrelude_eq_extracted", "anyPrelude_eq_extracted", "validateP_list_prelude", "validateP_dict_prelude",
+            "extracted_errors_located_and_true"]
 FILES = ["D42/Model/Data.lean", "D42/Model/Float.lean", "D42/Model/Validate.lean", "D42/Spec/Conforms.lean",
          "D42/Props/C02.lean", "D42/Props/C03.lean", "D42/Props/C03Facts.lean", "D42/Props/C03Sub.lean", "D42/Model/Format.lean", "D42/Props/C08.lean",
          "D42/Props/C08Format.lean", "D42/Props/C03All.lean",
